@@ -431,6 +431,8 @@ Qed.
 Lemma open_and_write_eq : forall hk d w,
   open_and_write hk d w =
   if hk =? 3 then (w, Err E_Other)
+  else if hk =? 5 then (mkW CEmpty (w_log w)
+                            (w_trace w ++ [mkEv EV_OPEN 0 0 (cstate (w_file w)); mkEv EV_WRITE 0 0 2]), Err E_Other)
   else (mkW (CNew d) (w_log w)
             (w_trace w ++ (if is_path hk then [mkEv EV_OPEN 0 0 (cstate (w_file w)); mkEv EV_WRITE 0 0 2]
                            else [mkEv EV_WRITE 0 0 (cstate (w_file w))])), Ok tt).
@@ -439,10 +441,13 @@ Proof.
   destruct (hk =? 3) eqn:H3.
   - assert (H0 : hk =? 0 = false) by lia. assert (H1 : hk =? 1 = false) by lia.
     rewrite H0, H1. cbn [orb]. unfold open_w. rewrite H3. reflexivity.
-  - rewrite orb_false_r. destruct ((hk =? 0) || (hk =? 1)) eqn:H01.
-    + unfold open_w. rewrite H3. unfold write_text. cbn [w_file w_log w_trace cstate].
-      rewrite <- app_assoc. reflexivity.
-    + reflexivity.
+  - rewrite orb_false_r. destruct (hk =? 5) eqn:H5.
+    + rewrite orb_true_r. unfold open_w. rewrite H3. unfold write_text. rewrite H5.
+      cbn [w_file w_log w_trace cstate]. rewrite <- app_assoc. reflexivity.
+    + rewrite orb_false_r. destruct ((hk =? 0) || (hk =? 1)) eqn:H01.
+      * unfold open_w. rewrite H3. unfold write_text. rewrite H5. cbn [w_file w_log w_trace cstate].
+        rewrite <- app_assoc. reflexivity.
+      * unfold ret, write_text. rewrite H5. reflexivity.
 Qed.
 
 (* the main statement: any conversion fault, anywhere, leaves the target as it was and is reported;
@@ -453,8 +458,9 @@ Lemma write_atomic : forall records results tl hk w w' r,
      w_file w' = w_file w /\
      exists k, r = Err k /\ (k = E_Type -> w_log w' = w_log w + 1) /\ (k <> E_Type -> w_log w' = w_log w)) /\
   (conversion_fails records results tl = false ->
-     (hk <> 3 -> r = Ok tt /\ w_file w' = CNew (expected_data records results)) /\
-     (hk = 3 -> r = Err E_Other /\ w_file w' = w_file w)).
+     (hk <> 3 -> hk <> 5 -> r = Ok tt /\ w_file w' = CNew (expected_data records results)) /\
+     (hk = 3 -> r = Err E_Other /\ w_file w' = w_file w) /\
+     (hk = 5 -> r = Err E_Other /\ w_file w' = CEmpty)).
 Proof.
   intros records results tl hk w w' r H. unfold write_to_file in H. split; intros Hf.
   - destruct (convert_all_err records results tl w Hf) as [k Hk].
@@ -464,9 +470,9 @@ Proof.
     + split; [reflexivity|]. exists E_Type. split; [reflexivity|]. split; [reflexivity|]. intros C. contradiction.
     + split; [reflexivity|]. exists k1. split; [reflexivity|]. split; [intros C; lia | reflexivity].
   - rewrite (convert_all_ok records results tl w Hf) in H. rewrite open_and_write_eq in H.
-    destruct (hk =? 3) eqn:H3; inversion H; subst w' r; split; intros C; try lia.
-    + split; reflexivity.
-    + split; reflexivity.
+    destruct (hk =? 3) eqn:H3; [|destruct (hk =? 5) eqn:H5]; inversion H; subst w' r;
+      (split; [intros C1 C2; try lia; split; reflexivity|]);
+      (split; [intros C; try lia; split; reflexivity|]); intros C; try lia; split; reflexivity.
 Qed.
 
 (* the trace: every conversion event saw the untouched target and precedes open/write; when the target
@@ -478,7 +484,7 @@ Lemma write_trace : forall records results tl hk w w' r,
     Forall (conv_ev (cstate (w_file w))) convs /\
     Forall io_ev io /\
     (io <> [] -> conversion_fails records results tl = false /\
-                 convs = all_conversions (cstate (w_file w)) records results tl /\ r = Ok tt).
+                 convs = all_conversions (cstate (w_file w)) records results tl /\ (hk <> 5 -> r = Ok tt)).
 Proof.
   intros records results tl hk w w' r H. unfold write_to_file in H.
   destruct (conversion_fails records results tl) eqn:Hf.
@@ -497,12 +503,17 @@ Proof.
     destruct (hk =? 3).
     + exists []. inversion H; subst w' r. cbn [ext w_trace]. rewrite app_nil_r.
       split; [reflexivity|]. split; [exact Fe|]. split; [constructor|]. intros C; contradiction.
-    + inversion H; subst w' r. cbn [ext w_trace w_file w_log]. rewrite <- app_assoc.
-      eexists. split; [reflexivity|]. split; [exact Fe|]. split.
-      * destruct (is_path hk).
+    + destruct (hk =? 5) eqn:H5.
+      * inversion H; subst w' r. cbn [ext w_trace w_file w_log]. rewrite <- app_assoc.
+        eexists. split; [reflexivity|]. split; [exact Fe|]. split.
         -- constructor; [left; reflexivity|]. constructor; [right; reflexivity|]. constructor.
-        -- constructor; [right; reflexivity|]. constructor.
-      * intros _. auto.
+        -- intros _. split; [reflexivity|]. split; [reflexivity|]. intros C. lia.
+      * inversion H; subst w' r. cbn [ext w_trace w_file w_log]. rewrite <- app_assoc.
+        eexists. split; [reflexivity|]. split; [exact Fe|]. split.
+        -- destruct (is_path hk).
+           ++ constructor; [left; reflexivity|]. constructor; [right; reflexivity|]. constructor.
+           ++ constructor; [right; reflexivity|]. constructor.
+        -- intros _. auto.
 Qed.
 
 (* ====================================================================== dump_records *)
@@ -513,7 +524,9 @@ Lemma dump_atomic : forall records results hk w w' r,
   (conversion_fails_dump records results hk = false ->
      (hk = 4 -> r = Ok (expected_data records results) /\ w_file w' = w_file w) /\
      (hk = 3 -> r = Err E_Other /\ w_file w' = w_file w) /\
-     (hk <> 3 -> hk <> 4 -> r = Ok (expected_data records results) /\ w_file w' = CNew (expected_data records results))).
+     (hk = 5 -> r = Err E_Other /\ w_file w' = CEmpty) /\
+     (hk <> 3 -> hk <> 4 -> hk <> 5 ->
+        r = Ok (expected_data records results) /\ w_file w' = CNew (expected_data records results))).
 Proof.
   intros records results hk w w' r H. unfold dump_records in H. unfold conversion_fails_dump.
   destruct (stage1_fails records results) eqn:H1.
@@ -525,7 +538,7 @@ Proof.
   - cbn [orb]. rewrite (conv_records_ok records results 0 w H1) in H.
     destruct (hk =? 4) eqn:H4.
     + cbn [negb andb]. inversion H; subst w' r. split; [intros C; discriminate|]. intros _.
-      split; [intros _; split; reflexivity|]. split; intros; lia.
+      split; [intros _; split; reflexivity|]. split; [intros; lia|]. split; intros; lia.
     + cbn [negb andb]. rewrite <- (expected_data_late records results H1).
       destruct (data_late_faulty (expected_data records results)) eqn:H2.
       * split; [intros _|intros C; discriminate].
@@ -538,19 +551,79 @@ Proof.
       * split; [intros C; discriminate|]. intros _.
         rewrite (dumps_records_ok _ 0 _ H2) in H.
         unfold bindM in H. rewrite open_and_write_eq in H.
-        destruct (hk =? 3) eqn:H3.
+        destruct (hk =? 3) eqn:H3; [|destruct (hk =? 5) eqn:H5].
         -- inversion H; subst w' r.
-           split; [intros; lia|]. split; [intros _; split; reflexivity|]. intros; lia.
+           split; [intros; lia|]. split; [intros _; split; reflexivity|]. split; intros; lia.
+        -- inversion H; subst w' r.
+           split; [intros; lia|]. split; [intros; lia|]. split; [intros _; split; reflexivity|]. intros; lia.
         -- unfold ret in H. inversion H; subst w' r.
-           split; [intros; lia|]. split; [intros; lia|]. intros _ _. split; reflexivity.
+           split; [intros; lia|]. split; [intros; lia|]. split; [intros; lia|]. intros _ _ _. split; reflexivity.
 Qed.
 
 (* ====================================================================== the output directory *)
 
-Lemma ignore_is_foreign : forall e, ignore_patterns e = foreign e.
+Lemma apath_eqb_eq : forall a b, apath_eqb a b = true <-> a = b.
 Proof.
-  intros e. unfold ignore_patterns, foreign.
-  destruct (en_input e && en_isdir e); destruct (en_islog e); reflexivity.
+  intros [d1 b1] [d2 b2]. unfold apath_eqb. cbn [p_dir p_base]. split; intros H.
+  - apply andb_true_iff in H. destruct H as [H1 H2]. f_equal; lia.
+  - inversion H; subst. apply andb_true_iff. split; lia.
+Qed.
+
+(* what the code treats as the log file is the property's log file as soon as a log file was asked for *)
+Lemma ignore_is_foreign_given : forall v e, lg_given v = true -> ignore_patterns v e = foreign v e.
+Proof.
+  intros v e G. unfold ignore_patterns, foreign, is_logfile, abspath_logfile. rewrite G. cbn [andb].
+  destruct (en_input e && en_isdir e); destruct (apath_eqb (entry_path e) (lg_path v)); reflexivity.
+Qed.
+
+(* without a log file the code still exempts the entry equal to the current directory *)
+Lemma ignore_is_foreign_nolog : forall v e, lg_given v = false ->
+  ignore_patterns v e = foreign v e && negb (apath_eqb (entry_path e) (cwd v)).
+Proof.
+  intros v e G. unfold ignore_patterns, foreign, is_logfile, abspath_logfile. rewrite G. cbn [andb].
+  destruct (en_input e && en_isdir e); destruct (apath_eqb (entry_path e) (cwd v)); reflexivity.
+Qed.
+
+Lemma ignore_is_foreign : forall v entries e,
+  cwd_is_entry v entries = false -> In e entries -> ignore_patterns v e = foreign v e.
+Proof.
+  intros v entries e C He. unfold cwd_is_entry in C. destruct (lg_given v) eqn:G.
+  - apply ignore_is_foreign_given. exact G.
+  - cbn [negb andb] in C. rewrite (ignore_is_foreign_nolog v e G).
+    destruct (apath_eqb (entry_path e) (cwd v)) eqn:X; [|apply andb_true_r].
+    exfalso. assert (T : existsb (fun e0 => apath_eqb (entry_path e0) (cwd v)) entries = true).
+    { apply existsb_exists. exists e. split; assumption. }
+    rewrite T in C. discriminate.
+Qed.
+
+(* the exemption is exact: an entry escapes the emptiness test iff it is the input directory or its
+   absolute path is the absolute path of config.logfile *)
+Lemma ignore_exact : forall v e,
+  ignore_patterns v e = false <->
+  (en_input e = true /\ en_isdir e = true) \/ entry_path e = abspath_logfile v.
+Proof.
+  intros v e. unfold ignore_patterns. split.
+  - destruct (en_input e && en_isdir e) eqn:I.
+    + intros _. left. apply andb_true_iff. exact I.
+    + destruct (apath_eqb (entry_path e) (abspath_logfile v)) eqn:X; [|discriminate].
+      intros _. right. apply apath_eqb_eq. exact X.
+  - intros [[A B]|A].
+    + rewrite A, B. reflexivity.
+    + destruct (en_input e && en_isdir e); [reflexivity|].
+      apply apath_eqb_eq in A. rewrite A. reflexivity.
+Qed.
+
+(* a log file that does not lie directly in the output directory exempts nothing: whatever the names *)
+Lemma log_elsewhere_foreign : forall v e,
+  lg_given v = true -> p_dir (lg_path v) <> 0 ->
+  foreign v e = negb (en_input e && en_isdir e) /\ ignore_patterns v e = negb (en_input e && en_isdir e).
+Proof.
+  intros v e G D.
+  assert (X : apath_eqb (entry_path e) (lg_path v) = false).
+  { unfold apath_eqb, entry_path. cbn [p_dir p_base]. apply andb_false_iff. left. lia. }
+  split.
+  - unfold foreign, is_logfile. rewrite G, X. cbn [andb]. rewrite orb_false_r. reflexivity.
+  - unfold ignore_patterns, abspath_logfile. rewrite G, X. destruct (en_input e && en_isdir e); reflexivity.
 Qed.
 
 Lemma filter_all : forall A (f : A -> bool) l, forallb f l = true -> filter f l = l.
@@ -574,18 +647,40 @@ Qed.
 Lemma filter_ext_eq : forall A (f g : A -> bool) l, (forall x, f x = g x) -> filter f l = filter g l.
 Proof. intros A f g l H. induction l as [|x xs IH]; [reflexivity|]. cbn. rewrite H, IH. reflexivity. Qed.
 
-(* refusal: fresh input, existing directory with a foreign entry that glob can see *)
-Lemma refuse_fresh : forall dmeta entries,
-  dir_guard dmeta entries = true -> existsb foreign entries = true ->
-  prepare_output_directory 1 false dmeta entries = (Err E_Input, 1, entries).
+Lemma dir_guard_parts : forall v dmeta entries, dir_guard v dmeta entries = true ->
+  dmeta = false /\ forallb en_visible entries = true /\ cwd_is_entry v entries = false.
 Proof.
-  intros dmeta entries G F. unfold dir_guard in G. apply andb_true_iff in G. destruct G as [Gm Gv].
-  destruct dmeta; [discriminate|].
+  intros v dmeta entries G. unfold dir_guard in G.
+  apply andb_true_iff in G. destruct G as [G Gc]. apply andb_true_iff in G. destruct G as [Gm Gv].
+  destruct dmeta; [discriminate|]. split; [reflexivity|]. split; [exact Gv|].
+  apply negb_true_iff. exact Gc.
+Qed.
+
+(* refusal: fresh input, existing directory with a foreign entry that glob can see *)
+Lemma refuse_fresh : forall v dmeta entries,
+  dir_guard v dmeta entries = true -> existsb (foreign v) entries = true ->
+  prepare_output_directory v 1 false dmeta entries = (Err E_Input, 1, entries).
+Proof.
+  intros v dmeta entries G F. destruct (dir_guard_parts _ _ _ G) as [Gm [Gv Gc]]. subst dmeta.
   unfold prepare_output_directory, glob_all. cbn [Z.eqb negb andb].
   rewrite (filter_all _ _ _ Gv).
-  rewrite (filter_ext_eq _ _ _ entries ignore_is_foreign).
+  rewrite (filter_ext_in _ _ entries (fun e He => ignore_is_foreign v entries e Gc He)).
   pose proof (existsb_filter_nonempty _ _ _ F) as NE.
-  destruct (filter foreign entries); [contradiction|]. reflexivity.
+  destruct (filter (foreign v) entries); [contradiction|]. reflexivity.
+Qed.
+
+(* the clause the log-file exemption must not weaken: the log file lives elsewhere (not directly in the
+   output directory) and some entry is not the input directory - refused, whatever the entry is called *)
+Lemma refuse_log_elsewhere : forall v entries,
+  lg_given v = true -> p_dir (lg_path v) <> 0 ->
+  forallb en_visible entries = true ->
+  existsb (fun e => negb (en_input e && en_isdir e)) entries = true ->
+  prepare_output_directory v 1 false false entries = (Err E_Input, 1, entries).
+Proof.
+  intros v entries G D V F. apply refuse_fresh.
+  - unfold dir_guard, cwd_is_entry. rewrite V, G. reflexivity.
+  - apply existsb_exists in F. destruct F as [e [He Fe]]. apply existsb_exists. exists e. split; [exact He|].
+    rewrite (proj1 (log_elsewhere_foreign v e G D)). exact Fe.
 Qed.
 
 Lemma remove_all_subset : forall targets entries r es,
@@ -650,13 +745,13 @@ Qed.
 
 (* whatever the mode and the outcome: nothing is added, and only entries that glob "*.region???.gbk"
    matches can disappear *)
-Lemma prepare_only_removes_region : forall reuse dmeta entries r k' es,
+Lemma prepare_only_removes_region : forall v reuse dmeta entries r k' es,
   NoDup (ids entries) ->
-  prepare_output_directory 1 reuse dmeta entries = (r, k', es) ->
+  prepare_output_directory v 1 reuse dmeta entries = (r, k', es) ->
   k' = 1 /\ (forall e, In e es -> In e entries) /\
   (forall e, In e entries -> (en_visible e && en_region e) = false -> In e es).
 Proof.
-  intros reuse dmeta entries r k' es N H. unfold prepare_output_directory in H.
+  intros v reuse dmeta entries r k' es N H. unfold prepare_output_directory in H.
   change (1 =? 0) with false in H. change (1 =? 1) with true in H. cbn [negb] in H. cbv iota in H.
   destruct (remove_all (glob_region dmeta entries) entries) as [r0 es0] eqn:R.
   revert H. match goal with |- (if ?c then _ else _) = _ -> _ => destruct c end; intros H.
@@ -672,20 +767,29 @@ Qed.
 
 (* accepted directory (reuse mode, or nothing foreign) without a directory named like a region file:
    exactly the visible *.region???.gbk entries are removed *)
-Lemma prepare_accept : forall reuse entries,
+Lemma prepare_accept : forall v reuse entries,
   NoDup (ids entries) ->
   forallb en_visible entries = true ->
-  (reuse = true \/ existsb foreign entries = false) ->
+  (reuse = true \/ existsb (foreign v) entries = false) ->
   forallb (fun e => negb (en_region e && en_isdir e)) entries = true ->
-  prepare_output_directory 1 reuse false entries =
+  prepare_output_directory v 1 reuse false entries =
   (Ok tt, 1, filter (fun e => negb (en_region e)) entries).
 Proof.
-  intros reuse entries N V A D. unfold prepare_output_directory, glob_all, glob_region.
+  intros v reuse entries N V A D. unfold prepare_output_directory, glob_all, glob_region.
   change (1 =? 0) with false. change (1 =? 1) with true. cbn [negb]. cbv iota.
-  rewrite (filter_all _ _ _ V). rewrite (filter_ext_eq _ _ _ entries ignore_is_foreign).
-  assert (C : negb reuse && negb (match filter foreign entries with [] => true | _ => false end) = false).
+  rewrite (filter_all _ _ _ V).
+  assert (C : negb reuse && negb (match filter (ignore_patterns v) entries with [] => true | _ => false end) = false).
   { destruct A as [A|A]; [subst reuse; reflexivity|].
-    rewrite (existsb_filter_empty _ _ _ A). destruct reuse; reflexivity. }
+    assert (E : filter (ignore_patterns v) entries = []).
+    { apply existsb_filter_empty. destruct (existsb (ignore_patterns v) entries) eqn:X; [|reflexivity].
+      apply existsb_exists in X. destruct X as [e [He Ie]].
+      assert (Fe : foreign v e = true).
+      { destruct (lg_given v) eqn:G.
+        - rewrite <- (ignore_is_foreign_given v e G). exact Ie.
+        - rewrite (ignore_is_foreign_nolog v e G) in Ie. apply andb_true_iff in Ie. tauto. }
+      assert (T : existsb (foreign v) entries = true) by (apply existsb_exists; exists e; split; assumption).
+      rewrite T in A. discriminate. }
+    rewrite E. destruct reuse; reflexivity. }
   rewrite C.
   assert (T : forallb (fun t => negb (en_isdir t)) (filter (fun e => en_visible e && en_region e) entries) = true).
   { apply forallb_forall. intros t Ht. apply filter_In in Ht. destruct Ht as [Ht1 Ht2].
@@ -704,21 +808,323 @@ Proof.
     rewrite Re in Ht2. rewrite andb_false_r in Ht2. discriminate.
 Qed.
 
-(* the two classes outside the guard: the code accepts a directory with foreign content *)
+(* the classes outside the guard: the code accepts a directory with foreign content.
+   env_nolog: no --logfile, current directory somewhere else *)
+Definition env_nolog : env := mkEnv false (mkP 9 0) (mkP 9 99).
+
 Lemma refuse_hidden_refuted :
-  exists entries, existsb foreign entries = true /\ prepare_output_directory 1 false false entries = (Ok tt, 1, entries).
-Proof. exists [mkE 0 false false false false false]. split; reflexivity. Qed.
+  exists entries, existsb (foreign env_nolog) entries = true /\
+                  prepare_output_directory env_nolog 1 false false entries = (Ok tt, 1, entries).
+Proof. exists [mkE 0 0 false false false false]. split; reflexivity. Qed.
 
 Lemma refuse_globname_refuted :
-  exists entries, existsb foreign entries = true /\ forallb en_visible entries = true /\ prepare_output_directory 1 false true entries = (Ok tt, 1, entries).
-Proof. exists [mkE 0 true false false false false]. split; [|split]; reflexivity. Qed.
+  exists entries, existsb (foreign env_nolog) entries = true /\ forallb en_visible entries = true /\
+                  prepare_output_directory env_nolog 1 false true entries = (Ok tt, 1, entries).
+Proof. exists [mkE 0 0 true false false false]. split; [|split]; reflexivity. Qed.
+
+(* no --logfile and the current directory is a sub-directory of the output directory: it is taken for the
+   log file, so a directory whose only content is that (foreign, visible) sub-directory is accepted *)
+Lemma refuse_cwd_refuted :
+  exists v entries, lg_given v = false /\ existsb (foreign v) entries = true /\
+                    forallb en_visible entries = true /\
+                    prepare_output_directory v 1 false false entries = (Ok tt, 1, entries).
+Proof.
+  exists (mkEnv false (mkP 9 0) (mkP 0 7)), [mkE 0 7 true false true false].
+  split; [|split; [|split]]; reflexivity.
+Qed.
 
 (* the other kinds of path *)
-Lemma prepare_not_directory : forall kind reuse dmeta entries,
-  (kind = 0 -> prepare_output_directory kind reuse dmeta entries = (Ok tt, 1, [])) /\ (kind <> 0 -> kind <> 1 -> prepare_output_directory kind reuse dmeta entries = (Err E_Input, kind, entries)).
+Lemma prepare_not_directory : forall v kind reuse dmeta entries,
+  (kind = 0 -> prepare_output_directory v kind reuse dmeta entries = (Ok tt, 1, [])) /\ (kind <> 0 -> kind <> 1 -> prepare_output_directory v kind reuse dmeta entries = (Err E_Input, kind, entries)).
 Proof.
-  intros kind reuse dmeta entries. unfold prepare_output_directory. split.
+  intros v kind reuse dmeta entries. unfold prepare_output_directory. split.
   - intros K. subst kind. reflexivity.
   - intros K0 K1. assert (E0 : kind =? 0 = false) by lia. assert (E1 : kind =? 1 = false) by lia.
     rewrite E0, E1. reflexivity.
+Qed.
+
+(* ====================================================================== the pipeline (_run_antismash) *)
+
+(* an event of a stage with code in [lo, hi] that saw the JSON target in state s *)
+Definition stage_ev (lo hi s : Z) (e : event) : Prop := lo <= e_code e <= hi /\ e_state e = s.
+
+Definition stage_like {A} (lo hi : Z) (m : M A) : Prop :=
+  forall w, exists evs, fst (m w) = ext w evs /\ Forall (stage_ev lo hi (cstate (w_file w))) evs.
+
+Lemma stage_like_ret : forall A lo hi (a : A), stage_like lo hi (ret a).
+Proof. intros A lo hi a w. exists []. split; [cbn; rewrite ext_nil; reflexivity | constructor]. Qed.
+
+Lemma stage_like_bind : forall A B lo hi (m : M A) (f : A -> M B),
+  stage_like lo hi m -> (forall a, stage_like lo hi (f a)) -> stage_like lo hi (bindM m f).
+Proof.
+  intros A B lo hi m f Hm Hf w. destruct (Hm w) as [e1 [H1 F1]].
+  unfold bindM. destruct (m w) as [w1 [a|k]] eqn:E; cbn [fst] in H1.
+  - subst w1. destruct (Hf a (ext w e1)) as [e2 [H2 F2]].
+    exists (e1 ++ e2). rewrite H2, ext_ext. split; [reflexivity|].
+    apply Forall_app. split; [exact F1 | exact F2].
+  - exists e1. split; [exact H1 | exact F1].
+Qed.
+
+Lemma stage_like_hook : forall lo hi c i j f, lo <= c <= hi -> stage_like lo hi (hook c i j f).
+Proof.
+  intros lo hi c i j f Hc w. rewrite hook_eq. eexists. split; [reflexivity|].
+  constructor; [|constructor]. split; [exact Hc | reflexivity].
+Qed.
+
+Lemma stage_like_emit : forall lo hi c i j, lo <= c <= hi -> stage_like lo hi (emit c i j).
+Proof.
+  intros lo hi c i j Hc w. exists [mkEv c i j (cstate (w_file w))]. split; [reflexivity|].
+  constructor; [|constructor]. split; [exact Hc | reflexivity].
+Qed.
+
+Lemma stage_like_run_records : forall rs results i, stage_like 24 26 (run_records i rs results).
+Proof.
+  induction rs as [|r rs IH]; intros results i; cbn [run_records]; [apply stage_like_ret|].
+  destruct results as [|ms results]; [apply stage_like_ret|].
+  destruct (rp_skip r); [apply IH|].
+  apply stage_like_bind; [apply stage_like_hook; lia|]. intros _.
+  destruct (negb (rp_regions r)); [apply IH|].
+  apply stage_like_bind; [apply stage_like_hook; lia|]. intros _. apply IH.
+Qed.
+
+Lemma stage_like_analysis : forall pl results, stage_like 24 26 (analysis_phase pl results).
+Proof.
+  intros pl results. unfold analysis_phase.
+  apply stage_like_bind; [apply stage_like_hook; lia|]. intros _. apply stage_like_run_records.
+Qed.
+
+Lemma stage_like_before : forall pl, stage_like 20 22 (before_prepare pl).
+Proof.
+  intros pl. unfold before_prepare.
+  apply stage_like_bind; [apply stage_like_hook; lia|]. intros _.
+  apply stage_like_bind; [apply stage_like_emit; lia|]. intros _.
+  destruct (negb (pp_verify pl)); [apply stage_like_ret|].
+  apply stage_like_bind; [apply stage_like_hook; lia|]. intros _. apply stage_like_ret.
+Qed.
+
+Lemma stage_like_output : forall pl, stage_like 28 30 (output_phase pl).
+Proof.
+  intros pl. unfold output_phase, ST_ANNOTATE.
+  apply stage_like_bind; [apply stage_like_hook; lia|]. intros _.
+  apply stage_like_bind; [apply stage_like_hook; lia|]. intros _.
+  apply stage_like_bind; [destruct (pp_profile pl); [apply stage_like_emit; lia | apply stage_like_ret]|].
+  intros _. apply stage_like_ret.
+Qed.
+
+(* the output phase ends in return code 0 or in an exception *)
+Lemma output_phase_result : forall pl w w' rc, output_phase pl w = (w', Ok rc) -> rc = 0.
+Proof.
+  intros pl w w' rc H. unfold output_phase, bindM in H. rewrite hook_eq in H.
+  destruct (pp_annotate pl =? 0); [|discriminate]. rewrite hook_eq in H.
+  destruct (pp_outputs pl =? 0); [|discriminate].
+  destruct (pp_profile pl); cbn in H; inversion H; reflexivity.
+Qed.
+
+Lemma Forall_weaken_stage : forall lo hi lo' hi' s evs,
+  lo' <= lo -> hi <= hi' -> Forall (stage_ev lo hi s) evs -> Forall (stage_ev lo' hi' s) evs.
+Proof.
+  intros lo hi lo' hi' s evs Hl Hh F. eapply Forall_impl; [|exact F].
+  intros e [Hc Hs]. split; [lia | exact Hs].
+Qed.
+
+(* everything after prepare_output_directory: analysis events, then the conversions (all of which see the
+   JSON target as it was), then open/write, then annotate_records / write_outputs / profiling - and the last
+   group only after the new JSON is in place *)
+Lemma after_prepare_trace : forall pl records results hk w w' r,
+  after_prepare pl records results hk w = (w', r) ->
+  exists mid convs io post,
+    w_trace w' = w_trace w ++ mid ++ convs ++ io ++ post /\
+    Forall (stage_ev 24 26 (cstate (w_file w))) mid /\
+    Forall (conv_ev (cstate (w_file w))) convs /\
+    Forall io_ev io /\
+    Forall (stage_ev 28 30 3) post /\
+    (io <> [] -> conversion_fails records results 0 = false /\
+                 convs = all_conversions (cstate (w_file w)) records results 0) /\
+    (post <> [] -> conversion_fails records results 0 = false /\ hk <> 3 /\ hk <> 5 /\
+                   w_file w' = CNew (expected_data records results)) /\
+    (conversion_fails records results 0 = true ->
+       w_file w' = w_file w /\ io = [] /\ post = [] /\ exists k, r = Err k) /\
+    (forall rc, r = Ok rc -> rc = 0 /\ conversion_fails records results 0 = false /\
+                             w_file w' = CNew (expected_data records results)).
+Proof.
+  intros pl records results hk w w' r H. unfold after_prepare, bindM in H.
+  destruct (stage_like_analysis pl results w) as [mid [Hm Fm]].
+  destruct (analysis_phase pl results w) as [w1 [[]|k1]] eqn:E1; cbn [fst] in Hm; subst w1.
+  2:{ inversion H; subst w' r. exists mid, [], [], []. cbn [ext w_trace w_file]. rewrite !app_nil_r.
+      split; [reflexivity|]. split; [exact Fm|]. split; [constructor|]. split; [constructor|].
+      split; [constructor|]. split; [intros C; contradiction|]. split; [intros C; contradiction|].
+      split; [intros _; split; [reflexivity|]; split; [reflexivity|]; split; [reflexivity|]; eexists; reflexivity|].
+      intros rc C. discriminate. }
+  destruct (write_to_file records results 0 hk (ext w mid)) as [w2 r2] eqn:E2.
+  destruct (write_trace _ _ _ _ _ _ _ E2) as [convs [io [Ht [Fc [Fi Hio]]]]].
+  destruct (write_atomic _ _ _ _ _ _ _ E2) as [Hfail Hok].
+  cbn [ext w_file w_trace] in Ht, Fc, Hio, Hfail, Hok.
+  destruct r2 as [[]|k2].
+  - (* the JSON is written *)
+    assert (Hcf : conversion_fails records results 0 = false).
+    { destruct (conversion_fails records results 0); [|reflexivity].
+      destruct (Hfail eq_refl) as [_ [k [C _]]]. discriminate. }
+    destruct (Hok Hcf) as [Hn [H3 H5]].
+    assert (N3 : hk <> 3) by (intros C; destruct (H3 C) as [C' _]; discriminate).
+    assert (N5 : hk <> 5) by (intros C; destruct (H5 C) as [C' _]; discriminate).
+    destruct (Hn N3 N5) as [_ Hfile].
+    destruct (stage_like_output pl w2) as [post [Hp Fp]]. rewrite Hfile in Fp. cbn [cstate] in Fp.
+    destruct (output_phase pl w2) as [w3 r3] eqn:E3. cbn [fst] in Hp. inversion H; subst w' r.
+    exists mid, convs, io, post. rewrite Hp. cbn [ext w_trace w_file]. rewrite Ht, Hfile.
+    split; [rewrite <- !app_assoc; reflexivity|]. split; [exact Fm|]. split; [exact Fc|]. split; [exact Fi|].
+    split; [exact Fp|]. split; [intros C; destruct (Hio C) as [A [B _]]; split; assumption|].
+    split; [intros _; repeat split; assumption|].
+    split; [intros C; rewrite C in Hcf; discriminate|].
+    intros rc C. subst r3. split; [apply (output_phase_result pl w2 w3 rc E3)|]. split; [exact Hcf | reflexivity].
+  - (* write_to_file raised *)
+    inversion H; subst w' r. exists mid, convs, io, []. rewrite Ht, !app_nil_r.
+    split; [rewrite <- !app_assoc; reflexivity|]. split; [exact Fm|]. split; [exact Fc|]. split; [exact Fi|].
+    split; [constructor|]. split; [intros C; destruct (Hio C) as [A [B _]]; split; assumption|].
+    split; [intros C; contradiction|].
+    split.
+    + intros C. destruct (Hfail C) as [Hf _]. split; [exact Hf|].
+      split; [|split; [reflexivity|eexists; reflexivity]].
+      destruct io as [|e io']; [reflexivity|]. exfalso.
+      assert (N : e :: io' <> []) by discriminate. destruct (Hio N) as [A _]. rewrite A in C. discriminate.
+    + intros rc C. discriminate.
+Qed.
+
+(* the whole pipeline.  pre = the stages up to and including prepare_output_directory *)
+Lemma run_antismash_trace : forall pl v kind reuse dmeta entries records results hk w w' r kd es,
+  run_antismash pl v kind reuse dmeta entries records results hk w = (w', r, kd, es) ->
+  exists pre mid convs io post,
+    w_trace w' = w_trace w ++ pre ++ mid ++ convs ++ io ++ post /\
+    Forall (stage_ev 20 23 (cstate (w_file w))) pre /\
+    Forall (stage_ev 24 26 (cstate (w_file w))) mid /\
+    Forall (conv_ev (cstate (w_file w))) convs /\
+    Forall io_ev io /\
+    Forall (stage_ev 28 30 3) post /\
+    (mid ++ convs ++ io ++ post <> [] ->
+       prepare_output_directory v kind reuse dmeta entries = (Ok tt, kd, es) /\
+       exists pre', pre = pre' ++ [mkEv ST_PREPARE 0 0 (cstate (w_file w))]) /\
+    (io <> [] -> conversion_fails records results 0 = false /\
+                 convs = all_conversions (cstate (w_file w)) records results 0) /\
+    (post <> [] -> conversion_fails records results 0 = false /\ hk <> 3 /\ hk <> 5 /\
+                   w_file w' = CNew (expected_data records results)) /\
+    (conversion_fails records results 0 = true ->
+       w_file w' = w_file w /\ io = [] /\ post = [] /\ r <> Ok 0) /\
+    (r = Ok 0 -> prepare_output_directory v kind reuse dmeta entries = (Ok tt, kd, es) /\
+                 conversion_fails records results 0 = false /\
+                 w_file w' = CNew (expected_data records results)).
+Proof.
+  intros pl v kind reuse dmeta entries records results hk w w' r kd es H. unfold run_antismash in H.
+  destruct (stage_like_before pl w) as [pre [Hp Fp]].
+  assert (Fp' : Forall (stage_ev 20 23 (cstate (w_file w))) pre)
+    by (apply (Forall_weaken_stage 20 22); [lia|lia|exact Fp]).
+  assert (Stop : forall r0, (r0 <> Ok 0) -> (w', r, kd, es) = (ext w pre, r0, kind, entries) ->
+    exists pre0 mid convs io post,
+    w_trace w' = w_trace w ++ pre0 ++ mid ++ convs ++ io ++ post /\
+    Forall (stage_ev 20 23 (cstate (w_file w))) pre0 /\ Forall (stage_ev 24 26 (cstate (w_file w))) mid /\
+    Forall (conv_ev (cstate (w_file w))) convs /\ Forall io_ev io /\ Forall (stage_ev 28 30 3) post /\
+    (mid ++ convs ++ io ++ post <> [] ->
+       prepare_output_directory v kind reuse dmeta entries = (Ok tt, kd, es) /\
+       exists pre', pre0 = pre' ++ [mkEv ST_PREPARE 0 0 (cstate (w_file w))]) /\
+    (io <> [] -> conversion_fails records results 0 = false /\
+                 convs = all_conversions (cstate (w_file w)) records results 0) /\
+    (post <> [] -> conversion_fails records results 0 = false /\ hk <> 3 /\ hk <> 5 /\
+                   w_file w' = CNew (expected_data records results)) /\
+    (conversion_fails records results 0 = true -> w_file w' = w_file w /\ io = [] /\ post = [] /\ r <> Ok 0) /\
+    (r = Ok 0 -> prepare_output_directory v kind reuse dmeta entries = (Ok tt, kd, es) /\
+                 conversion_fails records results 0 = false /\
+                 w_file w' = CNew (expected_data records results))).
+  { intros r0 N E. inversion E; subst w' r kd es. exists pre, [], [], [], [].
+    cbn [ext w_trace w_file app]. rewrite !app_nil_r.
+    split; [reflexivity|]. split; [exact Fp'|]. split; [constructor|]. split; [constructor|].
+    split; [constructor|]. split; [constructor|]. split; [intros C; contradiction|].
+    split; [intros C; contradiction|]. split; [intros C; contradiction|].
+    split; [intros _; repeat split; assumption|]. intros C. contradiction. }
+  destruct (before_prepare pl w) as [w1 [[|]|k1]] eqn:E1; cbn [fst] in Hp; subst w1.
+  - (* prepare_output_directory is reached *)
+    cbn [emit fst ext w_file w_log w_trace] in H. rewrite <- app_assoc in H.
+    set (pre1 := pre ++ [mkEv ST_PREPARE 0 0 (cstate (w_file w))]) in *.
+    assert (F1 : Forall (stage_ev 20 23 (cstate (w_file w))) pre1).
+    { apply Forall_app. split; [exact Fp'|]. constructor; [|constructor].
+      split; [unfold ST_PREPARE; cbn; lia | reflexivity]. }
+    destruct (prepare_output_directory v kind reuse dmeta entries) as [[rp kp] esp] eqn:EP.
+    destruct rp as [[]|kerr].
+    + destruct (after_prepare pl records results hk (mkW (w_file w) (w_log w) (w_trace w ++ pre1))) as [w3 r3] eqn:EA.
+      inversion H; subst w' r kd es.
+      destruct (after_prepare_trace _ _ _ _ _ _ _ EA) as [mid [convs [io [post [Ht [Fm [Fc [Fi [Fo [Hio [Hpost [Hfail Hok]]]]]]]]]]]].
+      cbn [w_trace w_file] in Ht, Fm, Fc, Hio, Hfail.
+      exists pre1, mid, convs, io, post. rewrite Ht.
+      split; [rewrite <- !app_assoc; reflexivity|]. split; [exact F1|]. split; [exact Fm|].
+      split; [exact Fc|]. split; [exact Fi|]. split; [exact Fo|].
+      split; [intros _; split; [reflexivity|exists pre; reflexivity]|].
+      split; [exact Hio|]. split; [exact Hpost|].
+      split.
+      * intros C. destruct (Hfail C) as [A [B [D [k K]]]]. repeat split; try assumption.
+        rewrite K. discriminate.
+      * intros C. destruct (Hok 0 C) as [_ [A B]]. repeat split; assumption.
+    + (* refused *)
+      inversion H; subst w' r kd es. exists pre1, [], [], [], [].
+      cbn [w_trace w_file app]. rewrite !app_nil_r.
+      split; [reflexivity|]. split; [exact F1|]. split; [constructor|]. split; [constructor|].
+      split; [constructor|]. split; [constructor|]. split; [intros C; contradiction|].
+      split; [intros C; contradiction|]. split; [intros C; contradiction|].
+      split; [intros _; repeat split; try reflexivity; discriminate|]. intros C. discriminate.
+  - (* verify_options failed: return 1 *)
+    apply (Stop (Ok 1)); [discriminate | symmetry; exact H].
+  - apply (Stop (Err k1)); [discriminate | symmetry; exact H].
+Qed.
+
+(* a refusal by prepare_output_directory ends the run: its exception is the outcome, nothing but the stages
+   before it has happened, JSON target and log are as they were, the directory is what
+   prepare_output_directory left (= untouched by C20_refuse / C20_not_a_directory) *)
+Lemma run_antismash_refused : forall pl v kind reuse dmeta entries records results hk w w' r kd es k kp esp,
+  prepare_output_directory v kind reuse dmeta entries = (Err k, kp, esp) ->
+  run_antismash pl v kind reuse dmeta entries records results hk w = (w', r, kd, es) ->
+  w_file w' = w_file w /\ w_log w' = w_log w /\ r <> Ok 0 /\
+  (kd = kp /\ es = esp \/ kd = kind /\ es = entries) /\
+  exists pre, w_trace w' = w_trace w ++ pre /\ Forall (stage_ev 20 23 (cstate (w_file w))) pre.
+Proof.
+  intros pl v kind reuse dmeta entries records results hk w w' r kd es k kp esp EP H.
+  unfold run_antismash in H. rewrite EP in H.
+  destruct (stage_like_before pl w) as [pre [Hp Fp]].
+  assert (Fp' : Forall (stage_ev 20 23 (cstate (w_file w))) pre)
+    by (apply (Forall_weaken_stage 20 22); [lia|lia|exact Fp]).
+  destruct (before_prepare pl w) as [w1 [[|]|k1]] eqn:E1; cbn [fst] in Hp; subst w1;
+    inversion H; subst w' r kd es; cbn [emit fst ext w_file w_log w_trace].
+  - split; [reflexivity|]. split; [reflexivity|]. split; [discriminate|]. split; [left; split; reflexivity|].
+    exists (pre ++ [mkEv ST_PREPARE 0 0 (cstate (w_file w))]). rewrite app_assoc. split; [reflexivity|].
+    apply Forall_app. split; [exact Fp'|]. constructor; [|constructor].
+    split; [unfold ST_PREPARE; cbn; lia | reflexivity].
+  - split; [reflexivity|]. split; [reflexivity|]. split; [discriminate|]. split; [right; split; reflexivity|].
+    exists pre. split; [reflexivity | exact Fp'].
+  - split; [reflexivity|]. split; [reflexivity|]. split; [discriminate|]. split; [right; split; reflexivity|].
+    exists pre. split; [reflexivity | exact Fp'].
+Qed.
+
+(* fresh run, existing directory with foreign content (inside the guard): whatever the plan, the run fails,
+   the directory listing, the JSON target and the log are untouched and no stage after
+   prepare_output_directory happens *)
+Lemma run_antismash_foreign : forall pl v dmeta entries records results hk w w' r kd es,
+  dir_guard v dmeta entries = true -> existsb (foreign v) entries = true ->
+  run_antismash pl v 1 false dmeta entries records results hk w = (w', r, kd, es) ->
+  r <> Ok 0 /\ kd = 1 /\ es = entries /\ w_file w' = w_file w /\ w_log w' = w_log w /\
+  exists pre, w_trace w' = w_trace w ++ pre /\ Forall (stage_ev 20 23 (cstate (w_file w))) pre.
+Proof.
+  intros pl v dmeta entries records results hk w w' r kd es G F H.
+  pose proof (refuse_fresh v dmeta entries G F) as EP.
+  destruct (run_antismash_refused _ _ _ _ _ _ _ _ _ _ _ _ _ _ _ _ _ EP H) as [A [B [C [D E]]]].
+  split; [exact C|]. split; [destruct D as [[D _]|[D _]]; exact D|].
+  split; [destruct D as [[_ D]|[_ D]]; exact D|]. split; [exact A|]. split; [exact B | exact E].
+Qed.
+
+(* the OS-level failure after truncation (handle kind 5): all conversions succeeded, open truncated the
+   file, write raised - the previous results are gone.  The guarantee of the property ends where the
+   conversions end. *)
+Lemma io_failure_loses_file : forall records results tl w w' r,
+  conversion_fails records results tl = false ->
+  write_to_file records results tl 5 w = (w', r) ->
+  r = Err E_Other /\ w_file w' = CEmpty /\ w_log w' = w_log w.
+Proof.
+  intros records results tl w w' r Hf H. unfold write_to_file in H.
+  rewrite (convert_all_ok records results tl w Hf) in H. rewrite open_and_write_eq in H.
+  change (5 =? 3) with false in H. change (5 =? 5) with true in H. cbv iota in H.
+  inversion H; subst w' r. repeat split; reflexivity.
 Qed.
